@@ -1973,13 +1973,19 @@ def cli_dimension_stream(ctx, n):
                             else [mode, os.path.join(d, "res"), os.path.join(d, "ref")])
                     args += ["--verbosity", "0"] + (["--disable-mesh-space-dimension-matching"] if disabled else [])
                     args += ["--diff"] if with_diff else []
+                    # the other mesh options do not touch the matching: both files store points and cells in the same order
+                    others = [o for o in ("--disable-mesh-reordering", "--disable-mesh-orphan-point-removal") if rng.random() < 0.4]
+                    args += others
                     with quiet():
                         warnings.simplefilter("ignore")
                         rc, log, exc = run_cli(args)
                     canon = {"cli": mode, "disable_space_dimension_matching": disabled, "low_is_source": low_is_source, "nx": nx, "diff": with_diff,
+                             "other_options": others,
                              "u": [float(x) for x in u], "v": [[float(x) for x in r] for r in v2]}
                     ctx.case(canon, True, sample={"cli": mode, "disabled": disabled, "low_is_source": low_is_source, "exit": rc})
                     ctx.count(f"c17 cli:{mode}:{'disabled' if disabled else 'enabled'}")
+                    for o in others:
+                        ctx.count(f"c17 cli: combined with {o}")
                     ctx.tie("T2 command line: --disable-mesh-space-dimension-matching in file and dir mode")
                     want_zero = not disabled
                     if exc:
